@@ -163,12 +163,15 @@ let flavour_of family =
 
 
 (* ---- owners of one object: variant / optional / expected / inplace_function ------------------- *)
-let parse_oops (t : toks) : oop list =
+(* by-index members and the inplace_function operations: ModelOwn.oop (XBase); the by-type members of a variant
+   (emplace<T>, variant(in_place_type<T>, ...)): ModelOwnT.xoop *)
+let parse_oops (t : toks) : xoop list =
   let k = next_int t in
   let ops = ref [] in
   for _ = 1 to k do
     let o = next_str t in
-    let push x = ops := x :: !ops in
+    let pushx x = ops := x :: !ops in
+    let push x = pushx (XBase x) in
     (match o with
      | "vsw" -> push VSwap
      | "fsw" -> push FSwap
@@ -176,6 +179,9 @@ let parse_oops (t : toks) : oop list =
        let tg = b t in
        (match o with
         | "vem" -> let j = next_nat t in let x = next_z t in push (VEmplace (tg, j, x))
+        | "vet" -> let j = next_nat t in let x = next_z t in pushx (XEmplaceType (tg, j, x))     (* v.emplace<Tj>(x) *)
+        | "vty" -> let j = next_nat t in let x = next_z t in pushx (XAssignTmpType (tg, j, x))   (* { V tmp(in_place_type<Tj>, x); v = move(tmp); } *)
+        | "vsy" -> let j = next_nat t in let x = next_z t in pushx (XScopedType (j, x))          (* { V c(in_place_type<Tj>, x); } *)
         | "var" -> let j = next_nat t in let x = next_z t in push (VAssignRv (tg, j, x))
         | "vac" -> let j = next_nat t in let x = next_z t in push (VAssignCr (tg, j, x))
         | "vav" -> let j = next_nat t in let x = next_z t in push (VAssignConv (tg, j, x))
@@ -222,6 +228,7 @@ let own_family family =
   let fl = String.sub family 4 (String.length family - 4) in
   let trk = match kind with
     | "var" -> [0; 2]       (* variant<TA, int, TB> *)
+    | "vpd" -> [0; 2]       (* variant<TA, int, TB, Pod>: Pod is a trivially destructible class type, no special member to observe *)
     | "opt" -> [1]          (* optional<T> = variant<nullopt_t, T> *)
     | "exp" -> [0; 1]       (* expected<T, E> = variant<T, E> *)
     | "fun" -> [1; 2]       (* inplace_function holding C1 / C2, 0 = empty *)
@@ -233,16 +240,16 @@ let run_own op t =
   let family = next_str t in
   let ops = parse_oops t in
   let (fl, trk, fn) = own_family family in
-  let ((steps, fin), (wf, alive)) = own_run_case fl trk fn ops in
+  let ((steps, fin), (wf, alive)) = own_run_case_x fl trk fn ops in
   if op = "omon" then begin
     let stopped = List.exists (fun r -> not r.r_done) steps in
-    let selfs = own_self_checks fl trk fn ops in
-    let st = storage_wf (own_trace fl trk fn ops) in
+    let selfs = own_self_checks_x fl trk fn ops in
+    let st = storage_wf (own_trace_x fl trk fn ops) in
     let m =
       if stopped then Printf.sprintf "contract wf %s" (b2s (List.for_all (fun r -> r.r_ok) steps))
       else Printf.sprintf "wf %s alive %d st %s self%s" (b2s wf) (int_of_nat alive) (b2s st)
           (String.concat "" (List.map (fun x -> " " ^ b2s x) selfs)) in
-    let sp = match own_spec_verdict ops with
+    let sp = match own_spec_verdict_x ops with
       | None -> "na"
       | Some (((w, a), ss), st') ->
         Printf.sprintf "wf %s alive %d st %s self%s" (b2s w) (int_of_nat a) (b2s st') (String.concat "" (List.map (fun x -> " " ^ b2s x) ss)) in
@@ -376,6 +383,9 @@ let run_umem op t =
   let hs = List.init n (fun j -> match what with
       | "copy" -> Copy (ext j) | "move" -> Move (ext j) | "fill" -> Copy (ext 0) | _ -> raise Not_found) in
   let (evs, thrown) = uninit dst hs (if k < 0 then None else Some (nat_of_int k)) in
+  (* the returned iterator `current` was incremented once per element built (copy / move; fill returns nothing) *)
+  let built = List.length (List.filter (function Construct _ -> true | _ -> false) evs) in
+  let ret = if thrown || what = "fill" then "-" else string_of_int built in
   let nm = function Slot (_, i) -> Printf.sprintf "d.%d" (int_of_nat i) | Ext j -> Printf.sprintf "s.%d" (int_of_nat j) | Temp _ -> "x.0" in
   if op = "uhist" then begin
     let one = function
@@ -385,7 +395,7 @@ let run_umem op t =
       | Destroy l -> "D:" ^ nm l
       | Assign (l, _) -> "A:" ^ nm l
       | Use l -> "U:" ^ nm l in
-    (String.concat " " (List.map one evs @ ["; thrown"; b2s thrown]), "na")
+    (String.concat " " (List.map one evs @ ["; thrown"; b2s thrown; "ret"; ret]), "na")
   end else begin
     (* the sources are alive before the call *)
     let n_src = if what = "fill" then 1 else n in
@@ -393,9 +403,10 @@ let run_umem op t =
     let (_, m0) = arun [] pre in
     let (ok, m1) = arun m0 evs in
     let dest = List.length (List.filter (fun i -> alive m1 (Slot (dst, nat_of_int i))) (List.init 9 (fun i -> i))) in
-    let model = Printf.sprintf "thrown %s wf %s dest %d" (b2s thrown) (b2s ok) dest in
+    let model = Printf.sprintf "thrown %s wf %s dest %d ret %s" (b2s thrown) (b2s ok) dest ret in
     let expect_throw = k >= 0 && k < n in
-    let sp = Printf.sprintf "thrown %s wf 1 dest %d" (b2s expect_throw) (if expect_throw then 0 else n) in
+    let sp = Printf.sprintf "thrown %s wf 1 dest %d ret %s" (b2s expect_throw) (if expect_throw then 0 else n)
+        (if expect_throw || what = "fill" then "-" else string_of_int n) in
     (model, sp)
   end
 
